@@ -7,9 +7,17 @@
 // the mutex up in the middle lets the injected operations in at that point — the real code then executes an interleaving no
 // sequential script can produce.  The mutex is observed by token renaming (`mutex` -> a std::mutex wrapper with a hook), the
 // binlog headers are unchanged.
+//
+// Injection into a write (`%` prefix, `log` ops only): the op is executed by "its own thread" WHILE the next unmarked op
+// (a consume) is inside the OutputStream::write call that carries the queue data of the op's writer, i.e. after that
+// channel was polled (beginRead) and before it is released (endRead).  addEvent takes no lock, so this interleaving is always
+// possible; the event is committed too late for this poll, so the run must equal the sequential one `host; log`.  (The script
+// generator only injects logs that need neither a registration nor a channel replacement, which would take the mutex the
+// consumer holds.)  If the host never writes data of that writer the op simply runs after it.
 #include <algorithm>
 #include <atomic>
 #include <cstdint>
+#include <cstring>
 #include <deque>
 #include <functional>
 #include <iostream>
@@ -22,6 +30,7 @@
 #include <vector>
 
 static std::function<void()> g_after_unlock;
+static std::function<void(const char*, std::size_t)> g_on_write;   // called at the START of every OutputStream::write
 
 namespace std {
 class inj_mutex
@@ -65,7 +74,12 @@ struct Raw { std::string bytes; };
 struct RecordingOut
 {
   std::vector<std::string> writes;
-  RecordingOut& write(const char* p, std::streamsize n) { writes.emplace_back(p, std::size_t(n)); return *this; }
+  RecordingOut& write(const char* p, std::streamsize n)
+  {
+    writes.emplace_back(p, std::size_t(n));     // copy first: what was handed to the output is what is compared
+    if (g_on_write) { g_on_write(writes.back().data(), writes.back().size()); }
+    return *this;
+  }
 };
 
 std::string showWrites(const RecordingOut& o)
@@ -147,11 +161,12 @@ int main()
     bool consumeClockSyncPending = true;
     std::vector<std::string> segs(groups.size());
     std::vector<std::size_t> pending;     // deferred (`@`) ops waiting for the next unlock
+    std::vector<std::size_t> pendingW;    // deferred (`%`) ops waiting for a data write of their writer
     bool inHook = false;
     std::function<std::string(std::size_t)> runOp = [&](std::size_t g) -> std::string
     {
       std::vector<std::string> t = groups[g];
-      if (! t.empty() && ! t[0].empty() && t[0][0] == '@') { t[0].erase(0, 1); }
+      if (! t.empty() && ! t[0].empty() && (t[0][0] == '@' || t[0][0] == '%')) { t[0].erase(0, 1); }
       std::string seg = "bad-op";
       try
       {
@@ -243,15 +258,43 @@ int main()
       inHook = false;
     };
     g_after_unlock = flush;
+    auto flushW = [&](bool all, std::uint32_t writer)
+    {
+      if (inHook || pendingW.empty()) { return; }
+      inHook = true;
+      std::vector<std::size_t> keep;
+      std::vector<std::size_t> todo;
+      for (std::size_t p : pendingW)
+      {
+        const bool mine = groups[p].size() > 1 && std::stoul(groups[p][1]) == writer;
+        if (all || mine) { todo.push_back(p); } else { keep.push_back(p); }
+      }
+      pendingW.swap(keep);
+      for (std::size_t p : todo) { segs[p] = runOp(p); }
+      inHook = false;
+    };
+    g_on_write = [&](const char* p, std::size_t n)
+    {
+      // a write that starts with an event entry: size(4) tag(8, top bit clear) clock(8) then the script's (writer, seq) pair
+      if (n < 4 + 16 + 8) { return; }
+      std::uint64_t tag = 0; memcpy(&tag, p + 4, 8);
+      if ((tag >> 63) != 0) { return; }
+      std::uint32_t w = 0; memcpy(&w, p + 4 + 16, 4);
+      flushW(false, w);
+    };
     for (std::size_t g = 1; g < groups.size(); ++g)
     {
       if (groups[g].empty()) { continue; }
       if (! groups[g][0].empty() && groups[g][0][0] == '@') { pending.push_back(g); continue; }
+      if (! groups[g][0].empty() && groups[g][0][0] == '%') { pendingW.push_back(g); continue; }
       segs[g] = runOp(g);
       flush();        // the host took no mutex: the injected ops simply run after it
+      flushW(true, 0); // the host wrote no data of that writer: the op runs after it
     }
     flush();
+    flushW(true, 0);
     g_after_unlock = nullptr;
+    g_on_write = nullptr;
     for (std::size_t g = 1; g < groups.size(); ++g)
     {
       if (groups[g].empty()) { continue; }
